@@ -74,7 +74,7 @@ func newPlan(c *Case) *plan {
 			p.clash = true
 		}
 		lower[ln] = i
-		if in.OddKeys != nil {
+		if in.Odd {
 			p.odd = true
 		}
 		// distinct attribute sets that merge into one label set
@@ -465,6 +465,15 @@ func (k *checker) exact(tag string, mfs []*dto.MetricFamily, gerr error, rm *met
 	info("otel_scope_info", scopes)
 
 	constL := k.constLabels()
+	// families that carry an acceptable name of some instrument
+	claimed := map[string]bool{"target_info": true, "otel_scope_info": true}
+	for i := range c.Insts {
+		for _, f := range mfs {
+			if k.p.refs[i].matches(f.GetName()) {
+				claimed[f.GetName()] = true
+			}
+		}
+	}
 	for i := range c.Insts {
 		in := &c.Insts[i]
 		ref := k.p.refs[i]
@@ -500,7 +509,7 @@ func (k *checker) exact(tag string, mfs []*dto.MetricFamily, gerr error, rm *met
 			continue
 		}
 		if mf == nil {
-			v := vk.V(k.nameKind(in, ref, mfs), "%s: instrument %d (%s %q unit %q): no family named %s among %v", tag, i, in.Kind, clip(in.Name), in.Unit, strings.Join(quoteAll(ref.cands), " | "), familyNames(mfs))
+			v := vk.V(k.nameKind(in, ref, mfs, claimed), "%s: instrument %d (%s %q unit %q): no family named %s among %v", tag, i, in.Kind, clip(in.Name), in.Unit, strings.Join(quoteAll(ref.cands), " | "), familyNames(mfs))
 			v.Observed = i // the instrument, for the known-finding matcher
 			k.vs = append(k.vs, v)
 			continue
@@ -657,7 +666,7 @@ func seriesLabels(mf *dto.MetricFamily) []map[string]string {
 // nameKind names the broken naming clause when no family carries an
 // acceptable name: it looks for the family that was meant and says what is
 // wrong with its suffixes.
-func (k *checker) nameKind(in *Inst, ref nameRef, mfs []*dto.MetricFamily) string {
+func (k *checker) nameKind(in *Inst, ref nameRef, mfs []*dto.MetricFamily, claimed map[string]bool) string {
 	c := k.p.c
 	stem := in.Name
 	if c.Legacy {
@@ -672,7 +681,7 @@ func (k *checker) nameKind(in *Inst, ref nameRef, mfs []*dto.MetricFamily) strin
 	for _, mf := range mfs {
 		n := delimClass(mf.GetName())
 		i := strings.Index(n, stem)
-		if i < 0 || mf.GetName() == "target_info" || mf.GetName() == "otel_scope_info" {
+		if i < 0 || claimed[mf.GetName()] {
 			continue
 		}
 		head, tail := n[:i], n[i+len(stem):]
@@ -865,12 +874,22 @@ func runConc(c Case) ([]vk.Violation, vk.Info) {
 	if reps < 1 {
 		reps = 1
 	}
-	for rep := 0; rep < reps; rep++ {
-		w, err := build(&c)
+	for rep := 0; rep < reps && len(k.vs) == 0; rep++ {
+		concRun(k, &c, rep, errs)
+	}
+	return k.vs, info
+}
+
+// concRun runs the concurrent program of the case once on a fresh exporter.
+func concRun(k *checker, c *Case, rep int, errs *vk.ErrCapture) {
+	p := k.p
+	{
+		w, err := build(c)
 		if err != nil {
 			k.bad("setup_error", "%v", err)
-			return k.vs, info
+			return
 		}
+		defer w.close()
 		type scrape struct {
 			mfs []*dto.MetricFamily
 			err error
@@ -937,10 +956,5 @@ func runConc(c Case) ([]vk.Violation, vk.Info) {
 				errs.Reset()
 			}
 		}
-		w.close()
-		if len(k.vs) > 0 {
-			break
-		}
 	}
-	return k.vs, info
 }
